@@ -93,6 +93,10 @@ def work(arg):
                         out['unsupported_msgs'].append(res.unsupported)
                     continue
                 results = list(E.results) if E else []
+                if res.exc is not None and 'CaseTimeout' in '%s %r %s' % (type(res.exc).__name__, res.exc, res.exc):
+                    # the alarm went off inside a z3 / ctypes call, which re-raises it as a ctypes ArgumentError: this is the case
+                    # time-out, not an exception of the code under test
+                    raise CaseTimeout()
                 if res.exc is not None:
                     out['exceptions'] += 1
                     expected = case.get('expect_exc')
